@@ -87,6 +87,45 @@ def _mode_value_ok(v, mode, prim, self_ty):
     return False
 
 
+def ref_mode(x):
+    return 0 if x <= 63 else 1 if x <= 16383 else 2 if x <= (1 << 30) - 1 else 3
+
+
+def ref_len(x):
+    if x <= 63:
+        return 1
+    if x <= 16383:
+        return 2
+    if x <= (1 << 30) - 1:
+        return 4
+    return 1 + max(4, (x.bit_length() + 7) // 8)
+
+
+def _is_counter_star(e, nval_of):
+    """loop running exactly n times: `for _ in 0..n` or `while i < n { ..; i += 1 }`; returns the bound value"""
+    src = strip(e[1])
+    if isinstance(src, tuple) and src[0] == 'adt' and src[1].endswith('ops::range::Range'):
+        lo = strip([v for i_, v in src[3] if i_ == 0][0])
+        hi = strip([v for i_, v in src[3] if i_ == 1][0])
+        if isinstance(lo, tuple) and lo[0] == 'lit' and lo[1] == 0:
+            return hi, e[2]
+        return None, None
+    if src == ('loop',):
+        its = items(e[2])
+        alts = [x for x in its if x[0] == 'alt']
+        if len(alts) == 1 and len(its) == 1 and isinstance(alts[0][1], tuple) and alts[0][1][0] == 'if':
+            c = strip(alts[0][1][1])
+            arms = dict(alts[0][2])
+            if isinstance(c, tuple) and c[0] == 'bin' and c[1] == 'Lt' and strip(c[2])[0] == 'mutvar' and arms.get('false') in (['eps'], None):
+                ctr = strip(c[2])
+                init = strip(ctr[3])
+                sets = [x for x in events(arms['true']) if x[0] == 'SET' and strip(x[1])[:2] == ctr[:2]]
+                if isinstance(init, tuple) and init[0] == 'lit' and init[1] == 0 and len(sets) == 1 and sets[0][3] == 'AddAssign' and sym.vstr(sets[0][2]).startswith('1:'):
+                    body = cat(*[x for x in items(arms['true']) if not (x[0] == 'SET' and strip(x[1])[:2] == ctr[:2])])
+                    return c[3], body
+    return None, None
+
+
 def check_encoders(out, facts, S):
     cfg = facts.cfg
     caps = {}
@@ -100,59 +139,82 @@ def check_encoders(out, facts, S):
         i = i[0]
         ms = S.methods_of(i)
         f = ms.get('encode_to')
+        if not f:
+            out.fail('R04.1', key, 'encode_to not overridden', i['loc'])
+            continue
         t, v, ev = wire.infer_encoder_method(facts, f, S.ev)
-        alts = [x for x in items(t) if x[0] == 'alt']
         why = []
-        if len(alts) != 1 or sym.vstr(alts[0][1]) != 'self.0':
-            why.append('encoder is not a single match on the value')
-        else:
-            arms = alts[0][2]
-            iv = arm_intervals(arms, wmax)
-            exp = expected_intervals(wmax)
-            if iv != exp:
-                why.append('mode intervals %s differ from %s' % (iv, exp))
+        n_eval = 0
+        for x in probes_for(bits):
+            if x > wmax:
+                continue
+
+            def leaf(val, x=x):
+                val = strip(val)
+                if isinstance(val, tuple) and val[0] == 'field' and strip(val[1]) == ('self',):
+                    return x
+                return None
+            evs, st = trace(t, leaf)
+            n_eval += 1
+            mode = ref_mode(x)
+            outs = [e for e in evs if e[0] in ('byte', 'enc', 'write', 'star', 'prim_le')]
+            if st == 'AMBIG':
+                why.append('value %d: the encoder\'s branch conditions cannot be decided' % x)
+                continue
+            if st == 'PANIC':
+                why.append('value %d: a panic is reachable' % x)
+                continue
+            if mode <= 2:
+                okm = len(outs) == 1
+                if okm and mode == 0:
+                    okm = outs[0][0] == 'byte' and _mode_value_ok(outs[0][1], 0, prim, i)
+                elif okm:
+                    okm = outs[0][0] == 'enc' and outs[0][1] == {1: 'u16', 2: 'u32'}[mode] and _mode_value_ok(outs[0][2], mode, prim, i)
+                if not okm:
+                    why.append('value %d (mode %d) is not written as ((x << 2) | %d) in %s: %s' % (x, mode, mode, {0: 'one byte', 1: 'a u16', 2: 'a u32'}[mode], ' · '.join(sym.tstr(e) for e in outs)[:120]))
+            elif prim == 'u32':
+                okm = [e[0] for e in outs] == ['byte', 'enc'] and sym.vstr(outs[0][1]) == '3:u8' and outs[1][1] == 'u32' and strip(outs[1][2])[0] == 'field'
+                if not okm:
+                    why.append('value %d: big-integer mode of u32 is not byte 0b11 followed by the 4 LE bytes' % x)
             else:
-                for mode, ((d, x), (lo, hi)) in enumerate(zip(arms, iv)):
-                    evs = [e for e in events(x) if e[0] in ('byte', 'enc', 'write')]
-                    if mode <= 2:
-                        okm = len(evs) == 1
-                        if okm and mode == 0:
-                            okm = evs[0][0] == 'byte' and _mode_value_ok(evs[0][1], 0, prim, i)
-                        elif okm:
-                            okm = evs[0][0] == 'enc' and evs[0][1] == {1: 'u16', 2: 'u32'}[mode] and _mode_value_ok(evs[0][2], mode, prim, i)
-                        if not okm:
-                            why.append('mode %d does not write ((x << 2) | %d) as %s: %s' % (mode, mode, {0: 'one byte', 1: 'u16', 2: 'u32'}[mode], sym.tstr(x)[:120]))
-                    else:
-                        if prim == 'u32':
-                            okm = [e[0] for e in evs] == ['byte', 'enc'] and sym.vstr(evs[0][1]) == '3:u8' and evs[1][1] == 'u32' and sym.vstr(evs[1][2]) == 'self.0'
-                            if not okm:
-                                why.append('u32 big-integer mode is not byte 0b11 followed by the 4 LE bytes')
-                        else:
-                            bn = '(%d:u32 Sub (leading_zeros(self.0) Div 8:u32))' % (bits // 8)
-                            s = sym.tstr(x)
-                            byte_evs = [e for e in events(x) if e[0] == 'byte']
-                            okm = len(byte_evs) == 2 and sym.vstr(byte_evs[0][1]) == '(3:u8 Add (((%s Sub 4:u32) Shl 2:i32) as u8))' % bn
-                            stars = [y for y in sym.walk(x) if y[0] == 'star']
-                            okm = okm and len(stars) == 1 and sym.vstr(stars[0][1]) == 'Range::Range{0: 0:u32, 1: %s}' % bn
-                            okm = okm and sym.vstr(byte_evs[1][1]) == '(mut v as u8)'
-                            sets = [e for e in events(x) if e[0] == 'SET']
-                            okm = okm and len(sets) == 1 and sets[0][3] == 'ShrAssign' and sym.vstr(sets[0][2]).startswith('8:')
-                            if not okm:
-                                why.append('big-integer mode is not 0b11 + ((n-4) << 2), then n bytes `v as u8; v >>= 8` with n = %d - leading_zeros/8: %s' % (bits // 8, s[:200]))
-        out.ob('R04.1', key, not why, '; '.join(why), f['loc'], sample={'term': sym.tstr(t)[:300]})
+                n_ref = max(4, (x.bit_length() + 7) // 8)
+                okm = len(outs) == 2 and outs[0][0] == 'byte' and outs[1][0] == 'star'
+                if okm:
+                    tag = None
+                    try:
+                        tag = eval_expr(outs[0][1], leaf)
+                    except ArithPanic:
+                        tag = None
+                    bound, body = _is_counter_star(outs[1], None)
+                    nval = None
+                    if bound is not None:
+                        try:
+                            nval = eval_expr(bound, leaf)
+                        except ArithPanic:
+                            nval = None
+                    okm = tag == 3 + ((n_ref - 4) << 2) and nval == n_ref
+                    if okm:
+                        bevs = [e for e in events(body) if e[0] in ('byte', 'SET', 'enc', 'write')]
+                        okm = len(bevs) == 2 and bevs[0][0] == 'byte' and sym.vstr(bevs[0][1]) == '(mut v as u8)' and bevs[1][0] == 'SET' and \
+                            bevs[1][3] == 'ShrAssign' and sym.vstr(bevs[1][2]).startswith('8:') and sym.vstr(bevs[1][1]) == 'mut v'
+                        mv = strip(bevs[1][1]) if okm else None
+                        okm = okm and isinstance(strip(mv[3]), tuple) and strip(mv[3])[0] == 'field'
+                if not okm:
+                    why.append('value 0x%x: big-integer mode is not tag 0b11 + ((n-4) << 2) with n = %d followed by n bytes `v as u8; v >>= 8`' % (x, n_ref))
+        out.ob('R04.1', key, not why, '; '.join(sorted(set(why))[:3]), f['loc'], sample={'evaluations': n_eval, 'term': sym.tstr(t)[:300]})
+        out.count('encoder mode evaluations', n_eval)
         # using_encoded buffer capacity (R04.4)
         ue = ms.get('using_encoded')
         if ue:
             t2, v2, _ = wire.infer_encoder_method(facts, ue, S.ev)
             cap = None
-            for fn2 in [ue]:
-                from .c08 import _walk_thir
-                for node, _p in _walk_thir(fn2['thir'], [], fn2):
-                    if node.get('k') == 'call' and node.get('name') == 'new' and 'ArrayVec' in node.get('fa', ''):
-                        import re
-                        m = re.search(r'ArrayVec::<u8, (\d+)', node['fa'])
-                        if m:
-                            cap = int(m.group(1))
+            from .c08 import _walk_thir
+            for node, _p in _walk_thir(ue['thir'], [], ue):
+                if node.get('k') == 'call' and node.get('name') == 'new' and 'ArrayVec' in node.get('fa', ''):
+                    import re
+                    m = re.search(r'ArrayVec::<u8, (\d+)', node['fa'])
+                    if m:
+                        cap = int(m.group(1))
             caps[prim] = cap
             need = {'u8': 2, 'u16': 4, 'u32': 5, 'u64': 9, 'u128': 17}[prim]
             out.ob('R04.4', 'CompactRef<%s>::using_encoded buffer [%s]' % (prim, cfg), cap is not None and cap >= need and shape._is_self_forward(t2),
@@ -176,37 +238,23 @@ def check_lengths(out, facts):
         ctx = sym.Ctx(ev, f)
         ctx.env[f['params'][0]['v']] = ('param', 'val', None)
         v, t = ev.ev(f['thir'], ctx)
-        v = strip(v)
         why = []
-        if not (isinstance(v, tuple) and v[0] == 'matchval'):
-            why.append('not a match on the value')
-        else:
-            arms = [(d, x) for d, x in v[2]]
-            iv = arm_intervals(arms, wmax)
-            if iv is None or not iv or iv[0][0] != 0 or iv[-1][1] != wmax or any(iv[j][1] + 1 != iv[j + 1][0] for j in range(len(iv) - 1) if iv[j + 1][0] <= iv[j + 1][1]):
-                why.append('length arms do not partition the value range: %s' % (iv,))
-            else:
-                def ref_len(x):
-                    if x <= 63:
-                        return 1
-                    if x <= 16383:
-                        return 2
-                    if x <= (1 << 30) - 1:
-                        return 4
-                    return 1 + max(4, (x.bit_length() + 7) // 8)
-                for (d, x), (lo, hi) in zip(arms, iv):
-                    if lo > hi:
-                        continue
-                    x = strip(x)
-                    if isinstance(x, tuple) and x[0] == 'lit':
-                        if not (ref_len(lo) == ref_len(hi) == x[1]):
-                            why.append('compact_len is %s on [%d, %d] where the encoder emits %d..%d bytes' % (x[1], lo, hi, ref_len(lo), ref_len(hi)))
-                    elif sym.vstr(x) == '(((%d:u32 Sub (leading_zeros(val) Div 8:u32)) as usize) Add 1:usize)' % (bits // 8):
-                        if lo <= (1 << 30) - 1:
-                            why.append('byte-count formula used below 2^30 (interval starts at %d)' % lo)
-                    else:
-                        why.append('unrecognised length expression on [%d, %d]: %s' % (lo, hi, sym.vstr(x)[:80]))
-        out.ob('R04.1', key, not why, '; '.join(why), f['loc'])
+        if sym.has_opaque(t) or [e for e in events(t) if e[0] in ('PANIC', 'ERR')]:
+            why.append('length function has effects / unrecognised constructs')
+        ps = [x for x in probes_for(bits) if x <= wmax] + [x for x in ((1 << 40) - 1, 1 << 40, (1 << 44), (1 << 48) - 1, 1 << 48, (1 << 56) - 1, 1 << 56,
+                                                                    (1 << 64) - 1, 1 << 64, (1 << 72) + 5, (1 << 120) - 1, 1 << 120, (1 << 128) - 1) if x <= wmax]
+        for x in ps:
+            try:
+                r = eval_expr(v, lambda val, x=x: x if (isinstance(val, tuple) and val[:2] == ('param', 'val')) else None)
+            except ArithPanic as ex:
+                why.append('value %d: %s' % (x, ex))
+                continue
+            if r is None:
+                why.append('length of value %d cannot be evaluated: %s' % (x, sym.vstr(v)[:80]))
+                break
+            if r != ref_len(x):
+                why.append('compact_len(0x%x) is %s but the encoder emits %d bytes' % (x, r, ref_len(x)))
+        out.ob('R04.1', key, not why, '; '.join(why[:3]), f['loc'], sample={'probes': len(ps)})
 
 
 def probes_for(bits):
